@@ -90,8 +90,32 @@ def normalize_types(f):
                 o = o._reverse()
 
         else:
+            # reverse(a) op reverse(b) == reverse(a op b) holds for the operations that work on every byte (or on the
+            # value as a set) alone; arithmetic and the order comparisons need the values themselves
+            # (Reverse(0x00ff) + Reverse(0x0001) is 0xff00 + 0x0100 = 0, not Reverse(0x0100) = 1)
+            commutes_with_reversal = f.__name__ in {
+                "__or__",
+                "__and__",
+                "__xor__",
+                "bitwise_or",
+                "bitwise_and",
+                "bitwise_xor",
+                "eq",
+                "union",
+                "_union",
+                "intersection",
+                "_multi_valued_intersection",
+                "widen",
+            }
+
             if not self._reversed and not o._reversed:
                 pass
+
+            elif not commutes_with_reversal:
+                if self._reversed:
+                    self = self._reverse()
+                if o._reversed:
+                    o = o._reverse()
 
             elif self._reversed and o._reversed:
                 reverse_back = True
